@@ -82,10 +82,13 @@ pub mod serde_json {
 pub uninterp spec fn may_deliver<T>(s: oneshot::Sender<T>, v: T) -> bool;
 // permission to offer message `m` to the buffer behind subscription sink `s` (ghost event `offered`)
 pub uninterp spec fn may_offer(s: SubscriptionSender, m: Box<RawValue>) -> bool;
+// whether the buffer behind sink `s` accepts `m` (false: the buffer is full — the consumer lags — or the stream was dropped)
+pub uninterp spec fn offer_accepted(s: SubscriptionSender, m: Box<RawValue>) -> bool;
 impl SubscriptionSender {
     // contract of the real `SubscriptionSender::send` (core/src/client/mod.rs); its body is verified in unit U05e
     #[verifier::external_body]
     pub fn send(&self, msg: Box<RawValue>) -> (r: Result<(), TrySubscriptionSendError>)
         requires may_offer(*self, msg),
+        ensures r is Ok <==> offer_accepted(*self, msg),
     { unimplemented!() }
 }
